@@ -262,7 +262,14 @@ def scope_program(rng, big=0):
     top, _ = body([], 0, rng.randint(2, 5))
     if big:
         names = ['n%d' % i for i in range(big)]
-        refs = ' + '.join(rng.sample(names, min(8, big)))
+        # some of them with one- and two-letter spellings, used rarely (so that they are renamed late, when the
+        # generated names have grown past them) and some spelled like the first generated names
+        for k, short in enumerate(['i', 'k', 'n', 'a', 'b', 'z', 'ab', 'Z_', '$', 'a0']):
+            if 10 * (k + 1) < big:
+                names[big - 10 * (k + 1)] = short
+        longs = [n for n in names if len(n) > 2]
+        # the long names are used more often than the short ones: the short ones are renamed after them
+        refs = ' + '.join(rng.sample(longs, min(70, len(longs))) + [n for n in names if len(n) <= 2][:3])
         top += ' function big(%s) { var %s; return %s + a + b + aa + do_ + if_; }' % (
             ', '.join(names[:3]), ', '.join(names[3:]), refs)
     return top
